@@ -10,4 +10,9 @@ type rawPathVariable struct {
 	parameters      []PathParameter
 	pathDirective   directive.Directive // to detect and display an error
 	parentDirective directive.Directive
+
+	// parent is the directive the Path directive belongs to, as it stands in
+	// the tree: two copies of one text (a macro pasted twice, a file included
+	// twice) are different parents.
+	parent *directive.Directive
 }
